@@ -372,6 +372,20 @@ class Interp(object):
             return set(), {cn}
         return set(), set()
 
+    def component_none_tests(self, t, sn):
+        """({TESS} if the test being TRUE means self._tsl_component is None, {TESS} if the test being FALSE means so)"""
+        def comp(x):
+            return isinstance(x, ast.Attribute) and x.attr == '_tsl_component' and isinstance(x.value, ast.Name) and x.value.id in sn
+        if isinstance(t, ast.UnaryOp) and isinstance(t.op, ast.Not):
+            a, b = self.component_none_tests(t.operand, sn)
+            return b, a
+        if isinstance(t, ast.Compare) and len(t.ops) == 1 and comp(t.left) and isinstance(t.comparators[0], ast.Constant) and t.comparators[0].value is None:
+            if isinstance(t.ops[0], (ast.Is, ast.Eq)):
+                return {'TESS'}, set()
+            if isinstance(t.ops[0], (ast.IsNot, ast.NotEq)):
+                return set(), {'TESS'}
+        return set(), set()
+
     def _is_empty_atom(self, v, sn):
         if isinstance(v, ast.Compare) and len(v.ops) == 1:
             l, r = v.left, v.comparators[0]
@@ -443,13 +457,16 @@ class Interp(object):
             # V means "empty or consistent", E "known empty": a branch asserting non-emptiness of an E cache is infeasible
             feas_t = tv is not False and not any(st[c] == E for c in fe)
             feas_f = tv is not True and not any(st[c] == E for c in te)
+            # a shape without a tessellation component has no tessellation to go stale: on the branch where the component is None the
+            # tessellation cache is (vacuously) empty.  Not used for feasibility: an emptied component is still a component.
+            nt, nf = self.component_none_tests(n.test, sn)
             if feas_t:
-                for c in te:
+                for c in te | nt:
                     a[c] = E
                 env['__c__'], env['__self__'] = ca, sa
                 ra = self.block(n.body, a, env, here)
             if feas_f:
-                for c in fe:
+                for c in fe | nf:
                     b[c] = E
                 env['__c__'], env['__self__'] = cb, sb
                 rb = self.block(n.orelse, b, env, here)
